@@ -152,3 +152,26 @@ CLAIMS["C11"] = (
     "Trusted: mc/estim.py documented_problem (hand-written from docstrings), mc/ref certificate, scikit-learn as comparison point "
     "(the gap theorem is valid against any point).",
     "DESIGN.md §4 C11")
+CLAIMS["C12"] = (
+    "exploration",
+    "bounded exhaustive enumeration of label alphabets, label permutations, class counts and evaluation grids on the real classifiers, with metamorphic (relabelling, one-vs-rest) and algebraic oracles",
+    "4 classifiers x 3 designs x {2,3,4} classes x 8 binary / 3 multiclass label alphabets (ints, uint8, bool, float, strings) x "
+    "intercept on/off x every permutation of the label set: decision_function must be the linear model, predict the label of "
+    "classes_ selected by it, probabilities finite, in [0,1], summing to one, monotone in the decision value (also at saturated "
+    "points), decision values invariant under relabelling up to the induced permutation / sign, and one-vs-rest row k equal to "
+    "the separate binary fit of class k vs rest, intercept included.",
+    "Tolerances 1e-6 on decision values (fits at tol 1e-10); predictions compared only where the margin exceeds 1e-5. Known "
+    "finding: GeneralizedLinearEstimator cannot fit more than two classes.",
+    "DESIGN.md §4 C12")
+CLAIMS["C10"] = (
+    "exploration",
+    "bounded exhaustive enumeration of compositions / estimators x storage representations, differential comparison of the results through convexity theorems",
+    "Solver level: every solver x datafit (x penalty class) domain x 3 designs x alphas is solved under 6 storages (dense F, dense C, CSC "
+    "int32, CSC int64, CSC with unsorted indices, CSC with explicit zeros). Estimator level: 10 estimators x 3 designs x 7 containers "
+    "(ndarray C/F, list of lists, CSR, CSC, float32 ndarray, float32 CSC). Converged results of the same problem must satisfy the "
+    "optimality-gap theorem pairwise (objective equality for non-convex problems, 1e-4 for float32); an unsupported "
+    "representation must be refused by AttributeError / ValueError / TypeError naming it - a compiled-code error or a dead worker is "
+    "a violation.",
+    "float32 containers are fitted at tol=1e-5 (a tolerance below single precision is unattainable and lets rounding drift accumulate). "
+    "Known finding: GroupLasso / MultiTaskLasso on float32 data.",
+    "DESIGN.md §4 C10")
